@@ -243,10 +243,12 @@ class ArgParser:
             # register newly created cmd_parser in parents...
             for p in parents:
                 parent_parser = self.command_parsers[p]
-                parent_parser.register_dependent(parser_name, cmd_parser)
+                if parser_name not in parent_parser._dependent_parsers:
+                    parent_parser.register_dependent(parser_name, cmd_parser)
                 # ... and all ascendants
                 for parser in self.command_parsers.values():
-                    if p in parser._dependent_parsers:
+                    if (p in parser._dependent_parsers
+                            and parser_name not in parser._dependent_parsers):
                         parser.register_dependent(parser_name, cmd_parser)
 
             self.command_parsers[parser_name] = cmd_parser
